@@ -42,6 +42,19 @@ SCENARIOS.update({
     "send_autoping_close": {"deflate": False, "threads": {"A": [["send_binary", P("A", 0)]], "C": [["close", 1000, "c"]]},
                             "loop": {"bytes": "", "idle_waits": 1}, "copts": {"ping_rate": 1.0, "poll": 2.0}},
 })
+SRV_CLOSE_EMPTY = rc.B(wire.CLOSE, b"").hex()
+SCENARIOS.update({
+    # other shapes of the Close frame: a server Close without a body (echoed with an empty payload), an
+    # application close() without a status code, a reason of the maximal length
+    "send_vs_empty_server_close_echo": {"deflate": False, "threads": {"A": [["send_text", P("A", 0)], ["send_text", P("A", 1)]]},
+                                        "loop": {"bytes": SRV_CLOSE_EMPTY, "idle_waits": 0}, "copts": {"ping_rate": 0}},
+    "close_and_send_vs_empty_server_close_echo": {"deflate": False, "threads": {"A": [["close", 1000, "a"]],
+                                                                                "B": [["send_binary", P("B", 0)]]},
+                                                  "loop": {"bytes": SRV_CLOSE_EMPTY, "idle_waits": 0},
+                                                  "copts": {"ping_rate": 0}},
+    "close_without_code_vs_text": {"deflate": False, "threads": {"A": [["close", None, ""]], "B": [["send_text", P("B", 0)]],
+                                                                  "C": [["close", 1000, "r" * 123]]}},
+})
 BOUND2 = ["close_vs_text", "close_vs_close", "close_vs_ping", "close_vs_server_close_echo"]
 
 
@@ -105,8 +118,8 @@ def judge(scn, out):
 
 class C12(C11):
     id = "C12"
-    rule = ("12 scenarios: close() racing with send_text / send_binary / send_ping / another close() on 2-3 threads, and with the "
-            "event-loop thread echoing a server Close, answering a Ping or crossing a ping deadline; run under the deterministic "
+    rule = ("18 scenarios: close() racing with send_text / send_binary / send_ping / another close() on 2-3 threads, and with the "
+            "event-loop thread echoing a server Close (with and without a body), answering a Ping or crossing a ping deadline; run under the deterministic "
             "scheduler (source-line granularity inside lomond + lock acquisition + the middle of every sendall). Schedules: every "
             "thread order x every single preemption (exhaustive, both tiers), every pair of preemptions for four scenarios "
             "(thorough), Hypothesis-drawn schedules with up to 8 preemptions. Oracle: at most one Close frame on the wire, no "
